@@ -12,8 +12,15 @@ open Irismod.Sdk Irismod.GoSem Irismod.Gen.PureRandom
 
 theorem random_all_translated : Irismod.Gen.PureRandom.untranslated = [] := rfl
 theorem random_translated_pinned : Irismod.Gen.PureRandom.translated =
-    ["GetRand_seedBT_1", "GetRand_seedBH_1", "GetRand_seedTI_1", "GetRand_seedSum_1", "GetRand_seedSum_2",
-     "GetRand_seedOS_1", "GetRand_seedSum_3", "GetRand_precision_1", "GetRand_cond_1"] := rfl
+    ["GetRand_seedBT_1(p_BlockTimestamp)",
+     "GetRand_seedBH_1(read_new_big_Int_SetBytes_SHA256_p_BlockHash,seedBT)",
+     "GetRand_seedTI_1(read_new_big_Int_SetBytes_SHA256_p_TxInitiator,seedBT)",
+     "GetRand_seedSum_1(seedBT,seedBH)",
+     "GetRand_seedSum_2(seedSum,seedTI)",
+     "GetRand_seedOS_1(read_new_big_Int_SetBytes_SHA256_p_OracleSeed,seedBT)",
+     "GetRand_seedSum_3(seedSum,seedOS)",
+     "GetRand_precision_1()",
+     "GetRand_cond_1(p_Oracle)"] := rfl
 
 /-- the seed sum of `GetRand`, composed from the translated assignments in source order (`hBH`, `hTI`, `hOS`: the
 digests of block hash, initiator and oracle seed as integers) -/
